@@ -348,3 +348,77 @@ class RootsSpy:
 def norm_result(r):
     """list of (float, float) from what intersect returned (tuples or lists, numpy scalars)"""
     return [(float(a), float(b)) for a, b in r]
+
+
+# ------------------------------------------------------------ code variants
+_VARIANTS = None
+
+
+def detect_variants():
+    """Which variant of four known-defective places the implementation under test
+    has (False = pinned, True = repaired), probed through behaviour.  The model
+    flags of Model/Isect.v (polyroots01_of fixed / rm_fixed / idx_fixed) follow it,
+    and the keys of the registered findings are only assigned to the pinned variant,
+    so that a regression of a repaired place is not masked."""
+    global _VARIANTS
+    if _VARIANTS is not None:
+        return _VARIANTS
+    import numpy as np
+    from cmath import phase
+    from svgpathtools import QuadraticBezier, Arc, Path, Line
+    from svgpathtools.polytools import polyroots01
+    v, notes = {}, []
+    # polyroots de-duplication: [.9,.6,.600001,.4,.2]
+    orig = np.roots
+    try:
+        np.roots = lambda p: np.array([.9, .6, .600001, .4, .2], dtype=complex)
+        got = [float(x) for x in polyroots01([1.0, 0, 0, 0, 0, 0])]
+    finally:
+        np.roots = orig
+    if got == [.9, .6, .4, .2]:
+        v['dedup_fixed'] = True
+    elif got == [.9, .6, .600001, .4]:
+        v['dedup_fixed'] = False
+    else:
+        v['dedup_fixed'] = True
+        notes.append('polyroots de-duplication probe returned %s: neither known variant' % got)
+    # redundancy loop of bezier_intersections
+    st, r = guarded(lambda: QuadraticBezier(54j, 18 + 54j, 36 + 45j).intersect(QuadraticBezier(22j, 18 + 94j, 36 + 13j)), 20)
+    n = len(r) if st == 'ok' else -1
+    v['rm_fixed'] = (n == 2)
+    if n not in (1, 2):
+        notes.append('bezier_intersections probe returned %s pairs: neither known variant' % n)
+    # Arc.phase2t for delta < 0
+    try:
+        arc = Arc(0j, 1 + 1j, 0, False, False, 1 + 1j)
+        t = arc.phase2t(phase(arc.u1transform(arc.point(0.3))))
+        v['phase2t_fixed'] = bool(abs(t - 0.3) < 1e-9)
+        if not v['phase2t_fixed'] and not t < 0:
+            notes.append('phase2t probe returned %r: neither known variant' % t)
+    except Exception as e:
+        v['phase2t_fixed'] = False
+        notes.append('phase2t probe raised %r' % e)
+    # Path.intersect: T from index() or from the position
+    try:
+        p = Path(Line(0, 3), Line(3, 3 + 4j), Line(3 + 4j, 0), Line(0, 3))
+        res = p.intersect(Path(Line(1 - 1j, 1 + 1j)), tol=0)
+        Ts = sorted(float(e[0][0]) for e in res)
+        v['idx_fixed'] = len(Ts) == 2 and abs(Ts[1] - 13 / 15) < 1e-12
+        if not v['idx_fixed'] and not (len(Ts) == 2 and abs(Ts[1] - 1 / 15) < 1e-12):
+            notes.append('Path.intersect index probe returned T1 = %s: neither known variant' % Ts)
+    except Exception as e:
+        v['idx_fixed'] = False
+        notes.append('Path.intersect index probe raised %r' % e)
+    v['notes'] = notes
+    _VARIANTS = v
+    return v
+
+
+def pinned_key(key, fixed_flag):
+    """the registered key for the pinned variant; a distinct one once repaired"""
+    return key if not fixed_flag else key + '-after-repair'
+
+
+def is_dyadic(t, bits=12):
+    x = t * (1 << bits)
+    return x == int(x)
